@@ -26,7 +26,7 @@ def run(ctx):
         cs = [c for c in cs if "world" not in c["prog"] and "check" not in c]
         cs.sort(key=lambda c: c["id"])
         # families about what a back-end keeps per loop / per call are taken whole
-        must = ("/outerjump/", "/loopcall/", "/range2/nested", "/multicall/", "/tuple/", "/grow/string/L1/", "/grow/bool/L2/", "/grow/int/L0/", "/copy/", "/punct/", "/jumpsite/", "/reeval/", "/nestleaf")
+        must = ("/outerjump/", "/loopcall/", "/range2/nested", "/multicall/", "/tuple/", "/grow/string/L1/", "/grow/bool/L2/", "/grow/int/L0/", "/copy/", "/punct/", "/jumpsite/", "/reeval/", "/nestleaf", "/guardtail/", "/selfassign/bool/")
         cases += [c for i, c in enumerate(cs) if i % stride == 0 or any(m in c["id"] for m in must)]
     # label allocation: nesting/sequencing shapes, many functions (spec/FamC16.tla), builtins that cannot run are dropped as unsupported
     shapes = ctx.tlc_family("FamC16", constants={"Tier": '"quick"'})
@@ -34,6 +34,9 @@ def run(ctx):
     cases += progflow.generate(ctx, "all", 60 if quick else 1500, extra=("-small",))
     # every typed position x every offered expression (spec/FamC06.tla RunCases): the well-typed ones also run under the cmd.exe model
     cases += [c for c in ctx.tlc_family("FamScale", constants={"Tier": '"quick"'}, timeout=3000) if "world" not in c["prog"] and c["id"].split("/")[1] in ("C01", "C02", "C03", "C04")]        # sizes across the digit boundaries (%10, :_f10, _h10)
+    # every ordered pair of features x composition mode (spec/FamPairs.tla), without the world features; quick: every 5th
+    pairs = sorted((c for c in progflow.pair_cases(ctx) if "world" not in c["prog"]), key=lambda c: c["id"])
+    cases += pairs[::(5 if quick else 1)]
     cases += comprun.accepted(ctx, False, 4 if quick else 1) + comprun.accepted(ctx, True, 4 if quick else 1)
     # the repository's own test programs: their stated expectations calibrate the cmd.exe model
     repo = corpus.cases(ctx, ("C01", "C02", "C03"))
